@@ -7,6 +7,7 @@ import (
 	"io"
 	"strings"
 	"sync"
+	"time"
 
 	"github.com/emersion/go-sasl"
 	smtp "github.com/emersion/go-smtp"
@@ -219,13 +220,31 @@ func (g *Gate) OpenAll() {
 }
 
 // WaitParked blocks until some callback is parked on name (or the gate was already opened).
-func (g *Gate) WaitParked(name string) {
+// It gives up (returns false) after ParkWatchdog of wall-clock time, so that a tree on which the
+// gate is never reached cannot hang the harness; callers then carry on and report what they see.
+func (g *Gate) WaitParked(name string) bool {
+	expired := false
+	t := time.AfterFunc(ParkWatchdog, func() {
+		g.mu.Lock()
+		expired = true
+		g.cond.Broadcast()
+		g.mu.Unlock()
+	})
+	defer t.Stop()
 	g.mu.Lock()
+	defer g.mu.Unlock()
 	for g.wait[name] == 0 && !g.open[name] && !g.all {
+		if expired {
+			return false
+		}
 		g.cond.Wait()
 	}
-	g.mu.Unlock()
+	return true
 }
+
+// ParkWatchdog bounds WaitParked (generous: it only ever expires on a tree that breaks the
+// property under test).
+var ParkWatchdog = 60 * time.Second
 
 // ---------------------------------------------------------------------------------------------
 
